@@ -185,6 +185,33 @@ type harness struct {
 	keys    [][3]int64 // group idx, topic idx, partition
 	keySet  map[[3]int64]bool
 	groups  map[int]bool // group indices named by an op of this history (the dump looks these up in the store)
+	mark    time.Time    // real time up to which the drift below is accounted
+	skew    time.Duration
+}
+
+// freeze keeps virtual time independent of how long the harness itself runs (etcd round trips, a
+// loaded machine): real time that has passed since the last op is accumulated and, beyond 50 ms,
+// taken back out of every stored timestamp.  Virtual time only advances through `tick`.
+func (h *harness) freeze() {
+	now := time.Now()
+	if !h.mark.IsZero() {
+		h.skew += now.Sub(h.mark)
+	}
+	h.mark = now
+	if h.skew > 50*time.Millisecond {
+		h.shift(-h.skew)
+		h.skew = 0
+		h.mark = time.Now()
+	}
+}
+
+func (h *harness) shift(d time.Duration) {
+	h.coord.VerifShift(d)
+	if h.mem != nil {
+		h.mem.VerifShiftHeartbeats(d)
+	} else {
+		h.etcd.VerifShiftHeartbeats(d)
+	}
 }
 
 func newHarness() *harness {
@@ -299,6 +326,8 @@ func (h *harness) resetMode(useEtcd bool) {
 	h.keys = nil
 	h.keySet = map[[3]int64]bool{}
 	h.groups = map[int]bool{}
+	h.mark = time.Time{}
+	h.skew = 0
 }
 
 func (h *harness) mName(id string) string {
@@ -874,12 +903,7 @@ func (h *harness) exec(f []string) (res string) {
 			return "bad-op"
 		}
 		d := time.Duration(ms) * time.Millisecond
-		h.coord.VerifShift(d)
-		if h.mem != nil {
-			h.mem.VerifShiftHeartbeats(d)
-		} else {
-			h.etcd.VerifShiftHeartbeats(d)
-		}
+		h.shift(d)
 		return "ok"
 	case f[0] == "cleanup" && len(f) == 1:
 		h.coord.VerifCleanup()
@@ -921,16 +945,26 @@ func main() {
 			w.Flush()
 			continue
 		}
+		h.freeze()
+		t0 := time.Now()
 		var res string
 		if f[0] == "race" {
 			res = h.opRace(f)
 		} else {
 			res = h.exec(f)
 		}
+		dur := time.Since(t0)
 		if res == "bad-op" {
 			fmt.Fprintln(w, res)
 		} else {
-			fmt.Fprintln(w, res+" || "+h.dump())
+			h.freeze()
+			line := res + " || " + h.dump()
+			if dur > 250*time.Millisecond || time.Since(t0) > 400*time.Millisecond {
+				// virtual time cannot be kept exact across an op that itself took this long (starved machine):
+				// the check discards the history instead of comparing timestamps it cannot trust
+				line = "SLOW " + line
+			}
+			fmt.Fprintln(w, line)
 		}
 		w.Flush()
 	}
